@@ -70,6 +70,8 @@ def check(ctx, src):
     v1, c1 = boolfn.equivalent(loc_calls, rq, AT, lambda e: (e["R"] or not e["D"]) and e["L"])
     v2, c2 = boolfn.equivalent(mod_calls, rq, AT, lambda e: (e["R"] or not e["D"]) and not e["L"])
     kwok = all({k.arg: norm(k.value) for k in c.keywords} == {"assignments": "assignments", "prefix": "prefix", "compiler": "compiler"} for c in rcalls) and len(rcalls) == len(loc_calls) + len(mod_calls)
+    if len(rcalls) != len(loc_calls) + len(mod_calls) or not rcalls:
+        v1 = v2 = None      # a call whose target is neither of the two expressions: the choice is made some other way
     ctx.decide_tt("MAC-INSTALL", f"{R}|compile_require|local", None if v1 is None else (v1 and kwok and bool(loc_calls)),
                f"inside a local state require must install into the innermost state (differs for {c1})", R, rq.lineno, detail="local_state_stack[-1]['macros']")
     ctx.decide_tt("MAC-INSTALL", f"{R}|compile_require|module", None if v2 is None else (v2 and kwok and bool(mod_calls)), f"at module level require installs into the module (differs for {c2})", R, rq.lineno, detail="compiler.module")
